@@ -271,7 +271,7 @@ def tmpl_harnesses(rows, family, prop, what):
             continue
         tier = "quick" if (quick is None or r["name"] in quick) else "thorough"
         desc = "%s: source `%s`%s — %s" % (r["name"], r["source"], (" (variant of `%s`)" % r["original"]) if r["original"] else "", what)
-        out.append(H(r["harness"], "tmpl", tier, desc, cbmc_args=FIELD_SENS, timeout=1500 if tier == "thorough" else 600))
+        out.append(H(r["harness"], "tmpl", tier, desc, cbmc_args=FIELD_SENS, timeout=1500 if tier == "thorough" else 900, jobs_weight=2))
     return out
 
 
